@@ -8,8 +8,11 @@ What the library's objects share (found by reading the code and by `-race` runs 
   `ToMesg` does `arr := pool.Get(); fields := arr[:0]; …append…; clone; *arr = [poolsize]proto.Field{}; pool.Put(arr)`.
   `sync.Pool` is synchronised; `Get` returns some previously `Put` array or a fresh zeroed one.
 * a caller-provided `*mesgdef.Options`: every generated `ToMesg` does
-  `if options == nil { options = defaultOptions } else if options.Factory == nil { options.Factory = factory.StandardFactory() }`
-  — an unsynchronised read and (when nil) WRITE of a cell the caller may share between goroutines (known finding KF-C15-1, F16).
+  `if options == nil { options = defaultOptions }; fac := options.Factory; if fac == nil { fac = factory.StandardFactory() }`
+  — one unsynchronised READ of a cell the caller may share between goroutines; the default is taken in the local `fac`,
+  the caller's object is never written. (Up to /repo 1fdeae5 the nil case assigned `options.Factory = …`: a write-write
+  conflict between conversions sharing one nil-Factory options value, finding KF-C15-1 / F16, repaired in the template
+  and the 119 regenerated files; the model of that code and the conflict theorem are in the history of this file.)
 * read-only tables (`typedef` name tables, `proto` size tables, `datetime.epoch`): never written after init; not modelled as cells.
 * `cmd/fitactivity/opener`: a `sync.Pool` of decoders; a decoder taken from it is private to one worker until put back.
 
@@ -17,11 +20,12 @@ An *operation* (decode, encode, typed conversion, file building, listener use, f
 of atomic actions from the alphabet `Act`, each acting on the operation's private state `Priv` and the shared state `Sh`.
 Executions are arbitrary interleavings (`exec` over a schedule; each schedule entry also resolves `sync.Pool.Get`'s
 choice). An action the real code never issues before its guard (reading the lazily built table before the own `once.Do`,
-using `options.Factory` before the own nil check, writing without holding an array) yields the fixed marker `bad`
-(in Go: a nil dereference / index panic), so programs outside the real code's shape are covered too.
+cloning without holding an array) yields the fixed marker `bad` (in Go: a nil dereference / index panic), so programs
+outside the real code's shape are covered too.
 
 Proved (FitProps/C15.lean): pool invariant, independence of results from what `Get` hands out, commutation of actions of
-different operations, and non-interference: under EVERY interleaving each operation's private state after j of its actions
+different operations, no action ever writes an options object (so no conflict on one, whether its `Factory` is set or
+nil), and non-interference: under EVERY interleaving each operation's private state after j of its actions
 is what it is after j actions when run alone. Runtime truth NOT proved: that the compiled binary has no word-level data
 race; the model lists the shared cells it knows, an unmodelled shared word is visible only to the race detector
 (family `concurrent` under `-race`). -/
@@ -58,8 +62,6 @@ structure Priv where
   out : List Nat
   /-- ghost: this operation has gone through `once.Do` -/
   onceSeen : Bool
-  /-- ghost: the options objects whose nil check this operation has passed -/
-  defaulted : List Nat
 
 inductive Act where
   | onceDo
@@ -68,12 +70,12 @@ inductive Act where
   | write (vals : List Nat)
   | clone (k : Nat)
   | put
-  | optDefault (o : Nat)
+  /-- `fac := options.Factory; if fac == nil { fac = factory.StandardFactory() }` on the caller's options object `o` -/
   | optRead (o : Nat)
   | loc (v : Nat)
   deriving DecidableEq, Repr
 
-def initPriv : Priv := { held := none, fields := [], out := [], onceSeen := false, defaulted := [] }
+def initPriv : Priv := { held := none, fields := [], out := [], onceSeen := false }
 
 /-- remove the `i`-th element -/
 def removeNth : List Arr → Nat → List Arr
@@ -106,11 +108,7 @@ def step (a : Act) (c : Nat) (p : Priv) (sh : Sh) : Priv × Sh :=
     match p.held with
     | some a => ({ p with held := none }, { sh with pool := a.map (fun _ => 0) :: sh.pool })
     | none => (p, sh)
-  | .optDefault o =>
-    ({ p with defaulted := o :: p.defaulted },
-     if (sh.opts o).isNone then { sh with opts := fun x => if x = o then some stdFactory else sh.opts x } else sh)
-  | .optRead o =>
-    ({ p with out := p.out ++ [if p.defaulted.contains o then (sh.opts o).getD bad else bad] }, sh)
+  | .optRead o => ({ p with out := p.out ++ [(sh.opts o).getD stdFactory] }, sh)
   | .loc v => ({ p with out := p.out ++ [v] }, sh)
 
 /-- an operation in flight: private state and the actions still to do -/
@@ -151,8 +149,7 @@ def privSolo (opts0 : Nat → Option Nat) (a : Act) (p : Priv) : Priv :=
   | .write vals => { p with held := p.held.map (overlay vals), fields := vals }
   | .clone k => { p with out := p.out ++ (match p.held with | some _ => p.fields.take k | none => [bad]) }
   | .put => { p with held := none }
-  | .optDefault o => { p with defaulted := o :: p.defaulted }
-  | .optRead o => { p with out := p.out ++ [if p.defaulted.contains o then (opts0 o).getD stdFactory else bad] }
+  | .optRead o => { p with out := p.out ++ [(opts0 o).getD stdFactory] }
   | .loc v => { p with out := p.out ++ [v] }
 
 /-- the operation run alone: all its actions, one after the other (any `Get` choices `cs`) -/
@@ -164,9 +161,9 @@ def soloExec (prog : List Act) (sh0 : Sh) (cs : List Nat) : Cfg :=
 /-- `mesgdef.NewXxx(&mesg)` / `Reset`: Get, append into `arr[:0]`, clone the filled prefix, zero, Put -/
 def progNew (vals : List Nat) : List Act := [.get, .write vals, .clone vals.length, .put]
 
-/-- `x.ToMesg(options)` with a caller-provided options object `o` -/
+/-- `x.ToMesg(options)` with a caller-provided options object `o` (its `Factory` set or nil) -/
 def progToMesg (o : Nat) (vals : List Nat) : List Act :=
-  [.optDefault o, .optRead o, .get, .write vals, .clone vals.length, .put]
+  [.optRead o, .get, .write vals, .clone vals.length, .put]
 
 /-- `x.ToMesg(nil)` (package default options: read-only) -/
 def progToMesgNil (vals : List Nat) : List Act := [.get, .write vals, .clone vals.length, .put]
@@ -174,14 +171,8 @@ def progToMesgNil (vals : List Nat) : List Act := [.get, .write vals, .clone val
 /-- `factory.CreateMesg(k)` -/
 def progCreateMesg (k : Nat) : List Act := [.onceDo, .readTable k]
 
-/-- accesses to unsynchronised shared cells (the options objects): `(cell, isWrite)` of an action in a state -/
-def optAccess (a : Act) (sh : Sh) : Option (Nat × Bool) :=
-  match a with
-  | .optDefault o => some (o, (sh.opts o).isNone)
-  | .optRead o => some (o, false)
-  | _ => none
-
+/-- the program has an (unsynchronised) access to options object `o` -/
 def mentions (prog : List Act) (o : Nat) : Bool :=
-  prog.any (fun a => match a with | .optDefault o' => o' == o | .optRead o' => o' == o | _ => false)
+  prog.any (fun a => match a with | .optRead o' => o' == o | _ => false)
 
 end Fit.Shared
